@@ -2,6 +2,8 @@
 
 package domain
 
+//verif:serial (*github.com/synnaxlabs/cesium/internal/domain.DB).Close
+
 import (
 	xfs "github.com/synnaxlabs/x/io/fs"
 	"github.com/synnaxlabs/x/telem"
